@@ -170,8 +170,8 @@ def gen_globals(rng, defines=None):
     # here they widen the option space for C03/C18)
     if rng.random() < 0.25:
         for _ in range(rng.randint(1, 2)):
-            name = rng.choice(["x", "k0", "k1", "lbl0", "foo", "val", "val.b", "K1", "start", "_"])
-            val = rng.choice(["", "", "=5", "=0x10", "=-3", "=true", "=false", "=", "=-", "=abc", "=1=2", "=0b101", "=%11", "=$ff"])
+            name = rng.choice(["x", "k0", "k1", "lbl0", "foo", "val", "val.b", "K1", "start", "_", "entry", "entry", "x", "val"])
+            val = rng.choice(["", "", "=5", "=0x10", "=-3", "=true", "=false", "=", "=-", "=abc", "=1=2", "=0b101", "=%11", "=$ff", "=66", "=0x42"])
             args.append(rng.choice(["-d", "--define="]) + name + val)
             model["defines"].append((name, val))
     return args, model
